@@ -22,7 +22,9 @@ RULE = (
 ASSUMPTIONS = ["the harness keeps only ids and weak references to results",
                "failing runs: only the FIRST error (which run re-raises at the end) may pin its call's arguments through its traceback",
                "further modes: 'obs' (at the observer's completed notification, any worker count), 'fail2' (several failing Python consumers, "
-               "max_errors=None), 'retry' (flaky consumers that succeed on a later attempt), 'failb' (failing C-function consumer), 'registry'"]
+               "max_errors=None), 'retry' (flaky consumers that succeed on a later attempt), 'failb' (failing C-function consumer), 'registry', "
+               "'mounted' (stored values behind MountedStore(PickleFileStore) and plain file stores, consumed / only depended upon: what was written and what "
+               "was read back is dead at the next call boundary and after the run, the registry and its stores still alive)"]
 
 
 def gen_cases(tier, seed):
@@ -48,6 +50,10 @@ def gen_cases(tier, seed):
                             "out": extra.pop("force_out", None) or r.choice(["sinks", "node", "node", "struct", "none"])}})
     for i in range(2 if tier == "quick" else 10):
         out.append({"seed": env.seed_for(seed, ID, tier, "many_failures", i), "mode": "many_failures", "n": 150, "W": 1, "sched": "default"})
+    # stored values behind the bundled stores that uberjob itself implements on top of others (MountedStore over a file store): what was written
+    # is released once the write has finished, whether or not anything reads the store in this run
+    for i in range(40 if tier == "quick" else 600):
+        out.append({"seed": env.seed_for(seed, ID, tier, "mounted", i), "mode": "mounted", "n": 0, "W": 1, "sched": "default"})
     # several consumers of one result finish at the same time; the worker of the first is held at every instruction of its release bookkeeping
     # (run_physical and the graph runner) while the others complete (vmon/preempt.py): "whatever the worker count or scheduler"
     combos = [(nc, W, sc, tw) for nc in (2, 3) for W in (nc, nc + 2) for sc in ("default", "random") for tw in (False, True)]
@@ -195,9 +201,120 @@ def run_registry(desc):
     return r_
 
 
+class Payload:
+    """Picklable, weak-referenceable result for the file-backed stores."""
+
+    def __init__(self, tag):
+        self.tag = tag
+
+
+def run_mounted(desc):
+    """A chain of stored values behind MountedStore(PickleFileStore) / plain file stores; each is consumed by a call, or only depended upon, or
+    neither; a probe call after each checks (after gc.collect()) that what was built AND what was read back earlier is dead once its consumers ended."""
+    import os
+    import shutil
+    import tempfile
+    import weakref
+
+    import uberjob
+    from uberjob.stores import MountedStore, PickleFileStore, get_modified_time
+
+    class DirMounted(MountedStore):
+        def __init__(self, remote):
+            super().__init__(PickleFileStore)
+            self.remote = remote
+
+        def copy_from_local(self, local_path):
+            shutil.copyfile(local_path, self.remote)
+
+        def copy_to_local(self, local_path):
+            shutil.copyfile(self.remote, local_path)
+
+        def get_modified_time(self):
+            return get_modified_time(self.remote)
+
+    rng = random.Random(desc["seed"])
+    tmp = tempfile.mkdtemp(prefix="vmon-c16-")
+    refs = {}  # tag -> weakrefs of everything built or received under that tag
+    state = {"bad": None, "checked": 0, "checkpoints": 0}
+    lock = threading.Lock()
+
+    def make(tag):
+        v = Payload(tag)
+        with lock:
+            refs.setdefault(tag, []).append(weakref.ref(v))
+        return v
+
+    def consume(tag, v):
+        with lock:
+            refs.setdefault(tag, []).append(weakref.ref(v))  # the read-back object
+        return None
+
+    def probe(label, dead):
+        gc.collect()
+        state["checkpoints"] += 1
+        for tag in dead:
+            for r in refs.get(tag, ()):
+                state["checked"] += 1
+                if r() is not None and not state["bad"]:
+                    state["bad"] = (f"at the start of {label}: a value of stored node {tag} (built, or read back from its store) is still alive although every "
+                                    f"call that consumes it, and the write to its store, have finished")
+        return None
+
+    try:
+        plan = uberjob.Plan()
+        reg = uberjob.Registry()
+        k = rng.randint(1, 5)
+        prev = None
+        done = []
+        kinds = {}
+        stores = []
+        for j in range(k):
+            tag = f"x{j}"
+            x = plan.call(make, tag)
+            if prev is not None:
+                plan.add_dependency(prev, x)
+            kind = rng.choice(["mounted", "mounted", "mounted", "pickle"])
+            st = DirMounted(os.path.join(tmp, tag + ".pkl")) if kind == "mounted" else PickleFileStore(os.path.join(tmp, tag + ".pkl"))
+            stores.append(st)
+            reg.add(x, st)
+            use = rng.choice(["dependency", "dependency", "consumed", "both"])
+            kinds[f"mounted_{kind}_{use}"] = 1
+            last = x
+            if use in ("consumed", "both"):
+                last = plan.call(consume, tag, x)
+            done.append(tag)
+            p = plan.call(probe, f"probe{j}", list(done))
+            plan.add_dependency(last, p)
+            if use in ("dependency", "both"):
+                plan.add_dependency(x, p)
+            prev = p
+        W = rng.choice([1, 1, 3])
+        sched = rng.choice(["default", "random"])
+        out = rng.choice([None, prev])
+        for round_ in range(rng.choice([1, 2])):
+            # second round: everything is up to date; nothing is built, values that are consumed are read
+            uberjob.run(plan, output=out, registry=reg, max_workers=W, scheduler=sched, progress=None)
+            probe(f"the end of run {round_} (registry and stores still alive)", list(done))
+            if state["bad"]:
+                break
+    except BaseException as exc:
+        return {"status": "inconclusive", "detail": f"mounted-store run raised {exc!r}"}
+    finally:
+        shutil.rmtree(tmp, ignore_errors=True)
+    r_ = {"status": "ok", "counters": {"runs": 1, "mode_mounted": 1, "liveness_checkpoints": state["checkpoints"],
+                                       "mounted_values_checked": state["checked"], **kinds},
+          "nontrivial": state["checked"] > 0, "sig": hashlib.sha1(f"mounted{k}{sorted(kinds)}{W}{sched}".encode()).hexdigest()[:16]}
+    if state["bad"]:
+        r_.update(status="violation", detail=state["bad"], mechanism="retained-result", witness={"stores": sorted(kinds), "W": W, "sched": sched})
+    return r_
+
+
 def run_case(desc):
     if desc["mode"] == "registry":
         return run_registry(desc)
+    if desc["mode"] == "mounted":
+        return run_mounted(desc)
     if desc["mode"] == "many_failures":
         return run_many_failures(desc)
     if desc["mode"] == "preempt_release":
@@ -422,6 +539,8 @@ def finalize(agg, tier):
         reasons.append("fewer than 500 results with finished consumers were checked before the end of their run")
     if c["preempt_release_holds_others_completed"] < 100:
         reasons.append("release preemption: fewer than 100 holds during which the other consumers completed")
+    if c["mounted_values_checked"] < 50:
+        reasons.append("fewer than 50 liveness checks of values written to / read from a MountedStore")
     for m in ("mode_w1", "mode_anc", "mode_wave", "mode_registry", "mode_failb", "mode_obs", "mode_fail2", "mode_retry"):
         if c[m] < 20:
             reasons.append(f"too few {m} cases")
